@@ -4,3 +4,5 @@ import Model.Basic
 import Model.Layers
 import Model.OS
 import Model.FSI
+import Model.World
+import Model.BackupFS
